@@ -2,7 +2,7 @@
 // there, runs it through every invocation kind and judges what it printed against the path THIS program created.
 // The code under test runs only inside the helper (helper.cpp); nothing here includes an xtl header.
 //
-//   driver --root DIR --helper NAME=PATH [--helper NAME=PATH] --tier quick|thorough [--shard K N] [--deadline SECONDS]
+//   driver --root DIR --helper NAME=PATH [--helper NAME=PATH] --tier quick|thorough [--shard K N] [--deadline EPOCH_SECONDS]
 //   driver --root DIR --helper NAME=PATH ... --tier T --slice GRID DEPTH LENCLASS        (replay of one slice)
 //
 // A "slice" is one (grid, depth, total length) cell; its cases are flavour x invocation (x helper build).
@@ -594,16 +594,14 @@ int main(int argc, char** argv)
             for (int l = lo; l <= MAXLEN; ++l) slices.push_back(slice{"B", T.sweep_depth, std::to_string(l)});
         }
     }
-    struct timespec t0;
-    clock_gettime(CLOCK_MONOTONIC, &t0);
     long mine = 0, done_n = 0;
     for (size_t i = 0; i < slices.size(); ++i)
     {
         if (long(i) % nshards != shard) continue;
         ++mine;
-        struct timespec t;
-        clock_gettime(CLOCK_MONOTONIC, &t);
-        if (double(t.tv_sec - t0.tv_sec) > deadline)
+        // --deadline is an absolute wall-clock time (seconds since the epoch) shared by all shards; it only decides where
+        // a run is cut short (and then reported as capped), never a verdict
+        if (double(std::time(nullptr)) > deadline)
             continue;
         run_slice(T, slices[i], long(i));
         ++done_n;
